@@ -119,7 +119,7 @@ def real_generate(sel: list[str], prefix: str, target: Path, workdir: Path | Non
     return target.read_text("utf8")
 
 
-def occurrences_in(path: Path) -> dict[str, set]:
+def occurrences_in(path: Path) -> dict[str, list]:
     """For every dispatchable node class: the (line, column) of the nodes a check subscribed to that class is handed,
     recorded with one probe check per class through the real visitor (a base class such as FuncItem gets its subclasses' nodes)."""
     from collections import defaultdict
@@ -127,11 +127,11 @@ def occurrences_in(path: Path) -> dict[str, set]:
     import refurb.main as rmain
     from refurb.settings import Settings
     from refurb.visitor import METHOD_NODE_MAPPINGS
-    occ: dict[str, set] = defaultdict(set)
+    occ: dict[str, list] = defaultdict(list)          # with multiplicity: two nodes of one class can start at the same place (`f()()`, `a.b.c`)
     checks = defaultdict(list)
     for cls in set(METHOD_NODE_MAPPINGS.values()):
         def probe(name):
-            return lambda node, errors: occ[name].add((node.line, node.column))
+            return lambda node, errors: occ[name].append((node.line, node.column))
         checks[cls].append(probe(cls.__name__))
     orig = rmain.load_checks
     rmain.load_checks = lambda settings: checks
@@ -320,7 +320,12 @@ def run(ctx: Ctx) -> None:
         related = [(m_, s_, p_, n_) for m_, s_, p_, n_ in loadable
                    if any(a != b_ and isinstance(getattr(_N, a, None), type) and isinstance(getattr(_N, b_, None), type) and issubclass(getattr(_N, a), getattr(_N, b_)) for a in s_ for b_ in s_)]
         ctx.count("selections-with-a-class-and-its-base", len(related))
-        for modname, sel, prefix, nid in related[: ctx.budget(6, 40)] + rng.sample(loadable, min(len(loadable), ctx.budget(6, 40))):
+        # ... and selections two of whose classes have nodes that START at the same place (a statement and its expression, a call and its callee):
+        # position alone does not tell such nodes apart
+        posset = {c: set(v) for c, v in occ.items()}
+        coinciding = [t4 for t4 in loadable if 2 <= len(t4[1]) <= 3 and any(posset.get(a, set()) & posset.get(b_, set()) for a in t4[1] for b_ in t4[1] if a < b_)]
+        ctx.count("selections-whose-classes-share-a-start-position", len(coinciding))
+        for modname, sel, prefix, nid in related[: ctx.budget(6, 40)] + coinciding[: ctx.budget(8, 60)] + rng.sample(loadable, min(len(loadable), ctx.budget(6, 40))):
             rc, out, err = L.cli([str(probe), "--quiet", "--disable-all", "--enable", f"{prefix}{nid}", "--load", modname], cwd=str(td),
                                  env_extra={"PYTHONPATH": f"{td}:{L.ENV['PYTHONPATH']}"})
             n = sum(1 for l in out.splitlines() if f"[{prefix}{nid}]" in l)
@@ -331,19 +336,21 @@ def run(ctx: Ctx) -> None:
                            {"selection": sel, "stdout": out[-300:], "stderr": err[-500:]})
                 continue
             # ... and it fires on exactly the nodes of the selected classes (positions as mypy gives them; the template reports the node itself)
-            got_pos = set()
+            from collections import Counter
+            got_pos = Counter()
             for l in out.splitlines():
                 m_ = re.match(rf".*?:(\d+):(\d+) \[{prefix}{nid}\]", l)
                 if m_:
-                    got_pos.add((int(m_.group(1)), int(m_.group(2)) - 1))
+                    got_pos[(int(m_.group(1)), int(m_.group(2)) - 1)] += 1
             silenced = {k_ + 1 for k_, l_ in enumerate(probe.read_text().split("\n")) if "# noqa" in l_}          # the probe file silences some of its lines itself
-            want_pos = {q for q in set().union(*[occ.get(c, set()) for c in sel]) if q[0] >= 1 and q[0] not in silenced} if sel else set()      # nodes mypy synthesises carry no position
-            got_pos = {q for q in got_pos if q[0] not in silenced}
+            # one report per node and subscribed class: two selected classes whose nodes start at the same place give two reports there
+            want_pos = Counter(q for c in sel for q in occ.get(c, []) if q[0] >= 1 and q[0] not in silenced)      # nodes mypy synthesises carry no position
+            got_pos = Counter({q: n_ for q, n_ in got_pos.items() if q[0] not in silenced})
             if got_pos != want_pos:
-                missing, extra_ = sorted(want_pos - got_pos)[:5], sorted(got_pos - want_pos)[:5]
-                by_cls = {c: len(occ.get(c, set())) for c in sel}
+                missing, extra_ = sorted((want_pos - got_pos).items())[:5], sorted((got_pos - want_pos).items())[:5]
+                by_cls = {c: len(occ.get(c, [])) for c in sel}
                 ctx.report("gen:fires-on-other-nodes" if extra_ and not missing else "gen:misses-nodes",
-                           f"the generated check for {sel} reports at {len(got_pos)} positions of the probe file; nodes of the selected classes sit at {len(want_pos)} ({by_cls}); missing {missing}, unexpected {extra_}",
+                           f"the generated check for {sel} gives {sum(got_pos.values())} reports on the probe file; it is handed {sum(want_pos.values())} nodes of the selected classes ({by_cls}); missing (position, times) {missing}, unexpected {extra_}",
                            {"selection": sel, "nodes_per_class": by_cls, "missing": missing, "unexpected": extra_, "file": str(probe),
                             "cmd": f"refurb {probe.name} --disable-all --enable {prefix}{nid} --load {modname}"})
     finally:
